@@ -198,6 +198,29 @@ def compare_traces(ctx, c, kinds, component):
     return True
 
 
+def run_order_violation(c):
+    """C10 on a real sequential run (parent + resumed children run one after another): the order in which the
+    layers' tests actually execute — across all processes, in trace-file order — is the order of the model
+    (order_by_bases over the selected layers: parent's layers, then the resumed ones in spawn order)."""
+    if c.opts.get("processes", 1) != 1 or c.parent_model is None or "error" in c.parent_model:
+        return None
+    tests = {t["id"]: t for t in c.world["tests"]}
+    real = []
+    for e in c.obs.events:
+        if e.get("ev") == "tstart":
+            li = tests[e["t"]]["layer"]
+            if li not in real:
+                real.append(li)
+    want = []
+    for ev in c.parent_model["trace"]:
+        if ev[0] in ("header", "spawn") and ev[1] not in want:
+            want.append(ev[1])
+    want = [l for l in want if l in real]
+    if real != want:
+        return "layers executed their tests in the order %r, the layer order is %r" % (real, want)
+    return None
+
+
 def model_totals(c):
     """(ran, failures, errors, skipped, failed) as the parent reports them, from the model"""
     pm = c.parent_model
@@ -262,6 +285,10 @@ def standard_check_after_real(ctx, cases, prop, kinds, component, monitor, extra
             ctx.bump("stateful-monitor-only")
             continue
         if not compare_traces(ctx, c, kinds, component):
+            continue
+        ro = run_order_violation(c)
+        if ro:
+            ctx.violation(ro + " (opts %r)" % d["opts"], c.replay_obj(), signature="layer-run-order")
             continue
         if extra:
             extra(ctx, c)
